@@ -172,6 +172,13 @@ async fn main() {
             println!("add with empty value set: {:?}", r.map(|x| x.rc).map_err(|e| e.to_string()));
             println!("controls still set on the handle: {}", ldap.controls.is_some());
         }
+        "c07-negative-integer" => {
+            use ldap3::asn1::{ASNTag, Integer};
+            for v in [-128i64, -129, -200, -32769, i64::MIN + 1] {
+                let st = Integer { inner: v, ..Default::default() }.into_structure();
+                println!("INTEGER {} -> content {:02x?}", v, st.expect_primitive().unwrap());
+            }
+        }
         _ => eprintln!("unknown demo"),
     }
 }
